@@ -172,6 +172,7 @@ def _find_keys(a):
     n, L, nb = c.order, _flen(c), c.baselen
     out = [("random", r.randrange(1, n)) for _ in range(nrand)]
     out.append(("scalar-leading-zero", r.randrange(1, min(n, 256 ** (nb - 1)))))
+    out += [("scalar-1", 1), ("scalar-2", 2), ("scalar-n-1", n - 1), ("scalar-n-2", n - 2)]
     lim = 256 ** (L - 1)
     need = {"x-leading-zero", "y-leading-zero"}
     k = r.randrange(1, n - 200000)
@@ -281,6 +282,57 @@ def _record_curve(a):
                         ossl_job("pkcs8", "pkcs8", dr, dr, ["pkey", "-in", "@in"], "pem2der", tag)
                         jobs[-1] = (jobs[-1][0], jobs[-1][1], pem, "pem2der")      # openssl reads the PEM text
     return cname, evs, jobs
+
+
+
+def _record_pub_curve(a):
+    """Public keys given as constructed points (x, y) - value classes no scalar search reaches, see harness/c19points.py:
+    every public encoding of the library, openssl's re-encoding of it, openssl's own six forms decoded by the library,
+    openssl's validity check.  Returns (cname, points, events, fill jobs, decode jobs, check jobs)."""
+    cname, npem = a
+    ecdsa, SigningKey, VerifyingKey, der, curves = _lib()
+    from register_crypto_plugin.ecdsa import ellipticcurve
+    from .. import c19points
+    c = _curve(cname)
+    on, L = c.openssl_name, _flen(c)
+    pts = c19points.special_points(c.curve.p(), c.curve.a(), c.curve.b(), c.order, c.curve.cofactor() or 1)
+    evs, jobs, djobs, cjobs = [], [], [], []
+    for kname, x, y in pts:
+        pub = x.to_bytes(L, "big") + y.to_bytes(L, "big")
+        base = {"curve": on, "key": kname, "pub": list(pub)}
+        try:
+            vk = VerifyingKey.from_public_point(ellipticcurve.Point(c.curve, x, y), c)
+        except Exception as e:                                  # noqa: BLE001 -- a valid point refused: recorded, rejected by the spec
+            evs.append(dict(base, op="pt", pe="raw", enc=[], dok=False, dpub=[], _cost=1))
+            continue
+        for cpe in CPES:
+            for pe in FORMS:
+                enc = vk.to_der(pe, cpe)
+                ok, dpub, dpriv, dc = _dec_result(lambda: VerifyingKey.from_der(enc))
+                evs.append(dict(base, op="enc", kind="spki", cpe=cpe, pe=pe, priv=[], enc=list(enc), dok=ok, dpub=dpub,
+                                dpriv=dpriv, dcurve=dc, _cost=4 + len(enc) // 8))
+                evs.append({"op": "ossl", "kind": "spki", "curve": on, "rel": "bytes", "what": "VerifyingKey.to_der(%s,%s) of %s" % (pe, cpe, kname),
+                            "enc": list(enc), "ref": list(enc), "ossl": None, "_cost": 2 + len(enc) // 40})
+                jobs.append((len(evs) - 1, ["ec", "-pubin", "-inform", "DER", "-in", "@in", "-pubout", "-outform", "DER", "-conv_form", pe,
+                                            "-param_enc", cpe], enc, "der"))
+        for pe in ("raw",) + FORMS:
+            enc = vk.to_string(pe)
+            ok, dpub, _, dc = _dec_result(lambda: VerifyingKey.from_string(enc, curve=c))
+            evs.append(dict(base, op="pt", pe=pe, enc=list(enc), dok=ok, dpub=dpub, _cost=2))
+        for cpe, pe in (("named_curve", "compressed"), ("explicit", "compressed"), ("named_curve", "uncompressed"), ("explicit", "hybrid"))[:npem]:
+            dr, pem = vk.to_der(pe, cpe), vk.to_pem(pe, cpe)
+            ok, dpub, dpriv, dc = _dec_result(lambda: VerifyingKey.from_pem(pem))
+            evs.append(dict(base, op="pem", kind="spki", cpe=cpe, pe=pe, der=list(dr), pem=list(pem), priv=[], dok=ok, dpub=dpub, dpriv=dpriv,
+                            _cost=4 + len(pem) // 6))
+        # openssl's own encodings of this key (converted from the uncompressed named form, which TLC has computed itself)
+        src = vk.to_der()
+        for cpe in CPES:
+            for pe in FORMS:
+                fl = ["-conv_form", pe, "-param_enc", cpe]
+                djobs.append((kname, cpe, pe, pub, src, ["ec", "-pubin", "-inform", "DER", "-in", "@in", "-pubout", "-outform", "DER"] + fl,
+                              ["ec", "-pubin", "-inform", "DER", "-in", "@in", "-pubout", "-outform", "PEM"] + fl))
+        cjobs.append((kname, src, ["pkey", "-pubin", "-inform", "DER", "-in", "@in", "-pubcheck", "-noout"]))
+    return cname, pts, evs, jobs, djobs, cjobs
 
 
 # ------------------------------------------------------------------ damaged encodings (worker)
@@ -757,6 +809,20 @@ def run(tier):
                 kev.extend(evs)
                 for idx, args, data, post in jobs:
                     pending.append((kev[off + idx], ossl.add(args, data=bytes(data)), post))
+            # ---------------- constructed public keys: x = 0, smallest / largest x, smallest / largest y (no scalar known)
+            pkeys, pub_dec, pub_chk = {}, [], []
+            for cname, pts, evs, jobs, djobs, cjobs in pool.map(_record_pub_curve, [(c.name, 4 if th else 2) for c in ws]):
+                pkeys[cname] = pts
+                off = len(kev)
+                kev.extend(evs)
+                for idx, args, data, post in jobs:
+                    pending.append((kev[off + idx], ossl.add(args, data=bytes(data)), post))
+                for kname, cpe, pe, pub, src, a1, a2 in djobs:
+                    pub_dec.append((cname, kname, cpe, pe, pub, ossl.add(a1, data=src), ossl.add(a2, data=src)))
+                for kname, src, a1 in cjobs:
+                    pub_chk.append((cname, kname, src, ossl.add(a1, data=src)))
+            if not any(x == 0 for _, x, _y in pkeys["NIST256p"]):
+                raise MachineryError("no point with x = 0 constructed on P-256")
             # ---------------- the same PEM files in their other text representations (CRLF, blank lines, str/bytes, ...)
             if th:
                 pcurves = [c.name for c in ws]
@@ -827,6 +893,28 @@ def run(tier):
                         except Exception as e:              # noqa: BLE001
                             ev2["ok"], ev2["exc"] = False, type(e).__name__
                         kev.append(ev2)
+            for kname, x, y in pkeys["NIST256p"]:
+                raw = x.to_bytes(32, "big") + y.to_bytes(32, "big")
+                try:
+                    obj = plugin.PublicEccKeyProxy.create_from_raw_fmt(raw)
+                    dr, back0 = obj.to_der_fmt(), obj.to_raw_bin_fmt()
+                except Exception as e:                      # noqa: BLE001
+                    kev.append({"op": "hdr", "src": "constructed key (%s): create_from_raw_fmt raised %s" % (kname, type(e).__name__), "raw": list(raw),
+                                "der": [], "back": [], "ossl": [], "back2": [], "_cost": 1})
+                    continue
+                hdr_lib.append((kname, raw, dr, back0,
+                                ossl.add(["ec", "-pubin", "-inform", "DER", "-in", "@in", "-pubout", "-outform", "DER"], data=dr)))
+                vk = VerifyingKey.from_der(dr)
+                for pe in ("uncompressed", "compressed", "hybrid"):
+                    for cpe in ("named_curve", "explicit"):
+                        alt = vk.to_der(point_encoding=pe, curve_parameters_encoding=cpe)
+                        ev2 = {"op": "hdr2", "src": "constructed key (%s) %s/%s" % (kname, pe, cpe), "raw": list(raw), "altder": list(alt),
+                               "ok": True, "back": [], "exc": "", "_cost": 5}
+                        try:
+                            ev2["back"] = list(plugin.PublicEccKeyProxy.create_from_der_fmt(alt).to_raw_bin_fmt())
+                        except Exception as e:              # noqa: BLE001
+                            ev2["ok"], ev2["exc"] = False, type(e).__name__
+                        kev.append(ev2)
             # a key and its negation share X and differ in the compressed prefix: decoded one after the other in ONE process
             # (whatever the decoder may remember of the first must not change the second), every curve, both orders
             for c in ws:
@@ -885,6 +973,19 @@ def run(tier):
                 kev.append({"op": "odec", "kind": kind, "curve": c.openssl_name, "cpe": cpe, "pe": pe, "enc": list(enc), "pem": list(pem),
                             "tpub": list(tpub), "tpriv": tp, "dok": dok, "dpub": dpub, "dpriv": dpriv, "pok": pok, "ppub": ppub,
                             "ppriv": ppriv, "_cost": 8 + len(pem) // 5})
+            for cname, kname, cpe, pe, pub, j1, j2 in pub_dec:
+                c = _curve(cname)
+                enc = ossl.get(j1, True, "%s %s spki der" % (cname, kname))[1]
+                pem = ossl.get(j2, True, "%s %s spki pem" % (cname, kname))[1]
+                dok, dpub, dpriv, _ = _dec_result(lambda: VerifyingKey.from_der(enc))
+                pok, ppub, ppriv, _ = _dec_result(lambda: VerifyingKey.from_pem(pem))
+                kev.append({"op": "odec", "kind": "spki", "curve": c.openssl_name, "cpe": cpe, "pe": pe, "enc": list(enc), "pem": list(pem),
+                            "tpub": list(pub), "tpriv": [], "dok": dok, "dpub": dpub, "dpriv": dpriv, "pok": pok, "ppub": ppub, "ppriv": ppriv,
+                            "_cost": 8 + len(pem) // 5})
+            for cname, kname, src, jid in pub_chk:
+                rc, _ = ossl.get(jid)
+                kev.append({"op": "curve", "curve": cname, "what": "constructed key %s" % kname, "der": list(src), "lib": "ok",
+                            "ossl": "ok" if rc == 0 else "reject", "_cost": 1})
             for kname, raw, dr, back, jid in hdr_lib:
                 rc, od = ossl.get(jid)
                 try:
@@ -1185,7 +1286,7 @@ def run(tier):
         rep.add_trace("Trace_KeyEnc/plugin (PublicEccKeyProxy / PrivateEccKeyProxy / registry functions / EccDecryptor.decrypt on valid and damaged "
                       "raw and DER keys; raw route and DER route side by side)", {}, cnt.get("proxy", 0), True,
                       {"outcomes": pstat, "validated_in": "same TLC run as Trace_KeyEnc/encodings"})
-        rep.cov["keys"] = {c: [k for k, _ in v] for c, v in keys.items()}
+        rep.cov["keys"] = {c: [k for k, _ in v] + ["constructed:" + k for k, _x, _y in pkeys.get(c, [])] for c, v in keys.items()}
         for pred in (lambda e: e["op"] == "enc" and e["kind"] == "pkcs8" and e["curve"] == "secp112r1" and e["cpe"] == "named_curve",
                      lambda e: e["op"] == "hdr",
                      lambda e: e["op"] == "mut" and e["out"] == "raise" and not any(m in DOCUMENTED for m in e["mro"]),
@@ -1206,6 +1307,9 @@ def run(tier):
         "PKCS#8 DER of openssl is obtained by base64-decoding its PEM output (openssl pkey writes the traditional format for -outform DER)",
         "for SEC1/PKCS#8 with explicit parameters and a compressed/hybrid public key openssl is asked for the uncompressed form "
         "(the library leaves the generator uncompressed, openssl cannot write that mix); compared with the library's uncompressed encoding",
+        "constructed public keys (harness/c19points.py): points solved from the curve equation with integer arithmetic; only p, a, b, n, h are read "
+        "from the library; openssl pkey -pubcheck confirms each one; openssl's six SPKI forms of them are converted from the library's uncompressed "
+        "named encoding, whose bytes TLC has computed itself",
         "PEM text representations: the set that the unchanged library reads as the same key (LF/CRLF/mixed line ends, blank and white-space lines, "
         "white space at line ends, final line end or none, str/bytes/bytearray); CR-only line ends, text after the END line and memoryview are not in it; "
         "the specification regards two texts as the same file iff they agree after removing HT LF CR SP",
